@@ -133,6 +133,7 @@ struct iluk {
             w.sort();
 
             for(const nonzero &e : w.nz) {
+                if (e.lev > prm.k) continue;
                 if (e.col < i) {
                     Lcol.push_back(e.col);
                     Lval.push_back(e.val);
@@ -235,16 +236,19 @@ struct iluk {
 
             void add(ptrdiff_t col, const value_type &val, int lev) {
                 if (idx[col] < 0) {
-                    if (lev <= lfil) {
-                        int p = nz.size();
-                        idx[col] = p;
-                        nz.push_back(nonzero(col, val, lev));
-                        if (col < dia) q.push(p);
-                    }
+                    // Entries above the fill level are remembered (neither
+                    // eliminated nor stored): a later contribution of a
+                    // lower level may still admit the position.
+                    int p = nz.size();
+                    idx[col] = p;
+                    nz.push_back(nonzero(col, val, lev));
+                    if (lev <= lfil && col < dia) q.push(p);
                 } else {
                     nonzero &a = nz[idx[col]];
+                    bool dropped = a.lev > lfil;
                     a.val += val;
                     a.lev = std::min(a.lev, lev);
+                    if (dropped && a.lev <= lfil && col < dia) q.push(idx[col]);
                 }
             }
 
